@@ -285,7 +285,8 @@ def gen_dp(rng, none, force=False):
     if none and not force:
         return {}
     dp = {}
-    scale = float(10.0 ** rng.uniform(-3, 0.5))
+    # parameter increments over many decades: ordinary load steps, and the tiny ones of fine / adaptive stepping
+    scale = float(10.0 ** (rng.uniform(-3, 0.5) if rng.random() < 0.75 else rng.uniform(-10, -3)))
     for slot in ('0', '2', '1', '4'):
         pr = {'0': 0.7, '2': 0.4, '1': 0.15, '4': 0.15}[slot]
         if rng.random() < pr or (force and slot in ('0', '2')):
